@@ -163,6 +163,18 @@ func (ssc *defaultStatefulSetControl) ListRevisions(set *apps.StatefulSet) ([]*k
 	}
 	for _, item := range revisinsToUpgrade.Items {
 		local := item
+		// a revision that carries the selector labels and the upgrade marker (any adopted revision
+		// does) is returned by both lists; keep it once
+		dup := false
+		for i := range res {
+			if res[i].Name == local.Name {
+				dup = true
+				break
+			}
+		}
+		if dup {
+			continue
+		}
 		res = append(res, &local)
 	}
 	return res, nil
